@@ -167,3 +167,59 @@ package hermes
 //@ region Input#gwpoly from "g.GRHI = int(ValAsInt(tokens[3]" to "g.AMPL = float64(g.GRLO-g.GRHI) / 2"
 //@   serves C20
 //@   ensures mean: g.GW == real(g.GRLO+g.GRHI)/2 && g.AMPL == real(g.GRLO-g.GRHI)/2 && g.GRW == g.GW
+
+// ---------------------------------------------------------------------------
+// C19  soil temperature envelope
+// lo/hi: envelope of the temperatures present before the call (ghost); s: the surface value imposed today.
+//@ func Soiltemp
+//@   serves C19
+//@   ghost var lo real
+//@   ghost var hi real
+//@   define s() = g.TSOIL[1][0]
+//@   define elo() = min(lo, s())
+//@   define ehi() = max(hi, s())
+//@   define inenv(v) = elo() <= v && v <= ehi()
+//@   requires layers: 2 <= g.N && g.N <= 20
+//@   requires steps: g.DT.Num == 1 && g.DZ.Num == 10
+//@   requires tag: 0 <= g.TAG.Index && g.TAG.Index < 366
+//@   requires bd: forall(i, 0, g.N, 0.5667 <= g.BD[i] && g.BD[i] <= 2.3)
+//@   requires humus: forall(i, 0, g.N, 0 <= g.HUMUS[i] && g.HUMUS[i] <= 1)
+//@   requires water: forall(i, 0, g.N, 0 <= g.WG[0][i] && g.WG[0][i] <= 1)
+//@   requires envelope: lo <= hi && lo <= g.TBASE && g.TBASE <= hi && forall(i, 0, g.N+1, lo <= g.TSOIL[0][i] && g.TSOIL[0][i] <= hi)
+//@   ensures profile: forall(i, 0, g.N+1, inenv(g.TSOIL[0][i]))
+//@   ensures means: forall(i, 0, g.N+1, inenv(g.TD[i]))
+//@   ensures base: g.TSOIL[0][g.N] == g.TBASE
+//@   ensures capacity: forall(i, 0, g.N, g.HEATCAP[i] > 0)
+//@   ensures diffusion: forall(i, 0, g.N, 0 <= g.HEATCOND[i]/g.HEATCAP[i]*g.DT.Num/24/(g.DZ.Num*g.DZ.Num) && g.HEATCOND[i]/g.HEATCAP[i]*g.DT.Num/24/(g.DZ.Num*g.DZ.Num) <= 0.5)
+//@   modifies g.ALBEDO, g.TSOIL, g.HEATCOND, g.HEATCAP, g.TDSUM, g.TD
+//@   safety[C19] div index
+//@ loop Soiltemp#1
+//@   invariant range: 0 <= \i && \i <= g.N
+//@   invariant cap: forall(j, 0, \i, g.HEATCAP[j] > 0 && 0 <= g.HEATCOND[j] && g.HEATCOND[j] <= 1200*g.HEATCAP[j])
+//@   invariant sums: forall(j, 0, \i, g.TDSUM[j] == 0)
+//@ loop Soiltemp#2
+//@   invariant range: 0 <= \i && \i <= 24
+//@   invariant env: forall(j, 0, g.N+1, inenv(g.TSOIL[0][j]))
+//@   invariant bounds: g.TSOIL[1][0] == pre(g.TSOIL[1][0]) && g.TSOIL[1][g.N] == g.TBASE && g.TSOIL[0][g.N] == g.TBASE
+//@   invariant sums: forall(j, 0, g.N-1, real(\i)*elo() <= g.TDSUM[j] && g.TDSUM[j] <= real(\i)*ehi())
+//@   invariant td0: \i > 0 ==> g.TD[0] == s()
+//@ loop Soiltemp#3
+//@   invariant range: 1 <= \i && \i <= g.N
+//@   invariant new: forall(j, 1, \i, inenv(g.TSOIL[1][j]))
+//@   invariant old: forall(j, 0, g.N+2, g.TSOIL[0][j] == pre(g.TSOIL[0][j]))
+//@   invariant bounds: g.TSOIL[1][0] == pre(g.TSOIL[1][0]) && g.TSOIL[1][g.N] == pre(g.TSOIL[1][g.N])
+//@   invariant sumsdone: forall(j, 0, \i-1, real(std+1)*elo() <= g.TDSUM[j] && g.TDSUM[j] <= real(std+1)*ehi())
+//@   invariant sumsrest: forall(j, \i-1, g.N-1, g.TDSUM[j] == pre(g.TDSUM[j]))
+//@ loop Soiltemp#4
+//@   invariant range: 0 <= \i && \i <= g.N+1
+//@   invariant copied: forall(j, 0, \i, g.TSOIL[0][j] == g.TSOIL[1][j])
+//@   invariant new: forall(j, 0, g.N+2, g.TSOIL[1][j] == pre(g.TSOIL[1][j]))
+//@ loop Soiltemp#5
+//@   invariant range: 1 <= \i && \i <= g.N
+//@   invariant means: forall(j, 1, \i, inenv(g.TD[j]))
+//@   invariant first: g.TD[0] == pre(g.TD[0])
+//@ loop Soiltemp#6
+//@   invariant range: 1 <= \i && \i <= g.N+1
+//@   invariant set: forall(j, 1, \i, g.TSOIL[0][j] == g.TD[j])
+//@   invariant rest: forall(j, \i, g.N+2, g.TSOIL[0][j] == pre(g.TSOIL[0][j])) && g.TSOIL[0][0] == pre(g.TSOIL[0][0])
+//@   invariant surface: g.TSOIL[1][0] == pre(g.TSOIL[1][0])
